@@ -37,6 +37,38 @@ static void vexit(int code)
 #endif
 }
 
+#ifdef K_RELOC
+/* relocation-info record body (after its $83 header byte): counts RelocCount, ExportCount, StringLen followed by the tables.
+   Whatever ReadRelocInfo returns non-NULL must be safe to print: every entry name points into the string table and the
+   table ends in NUL (plist prints the names with %s). */
+void harness(void)
+{
+  PRelocInfo p; unsigned rc, ec, sl; int z;
+  LOADA(in_file, NB); LOAD(in_len);
+  ASSUME(in_len <= NB);
+  rc = in_file[0] | (in_file[1] << 8) | (in_file[2] << 16) | ((unsigned)in_file[3] << 24);
+  ec = in_file[4] | (in_file[5] << 8) | (in_file[6] << 16) | ((unsigned)in_file[7] << 24);
+  sl = in_file[8] | (in_file[9] << 8) | (in_file[10] << 16) | ((unsigned)in_file[11] << 24);
+  ASSUME(rc <= 1 && ec <= 1 && sl <= 3);                 /* stated bound: table sizes */
+  src.kind = VF_READ; src.data = in_file; src.size = in_len; src.cap = NB; src.pos = 0;
+  errno = 0;
+  p = ReadRelocInfo((FILE*)(void*)&src);
+  if (p)
+  {
+    CHECK((unsigned)p->RelocCount == rc && (unsigned)p->ExportCount == ec, "counts as found in the file");
+    for (z = 0; z < 1; z++) if (z < p->RelocCount)
+      CHECK(p->RelocEntries[z].Name >= p->Strings && p->RelocEntries[z].Name < p->Strings + sl, "relocation entry name lies inside the string table");
+    for (z = 0; z < 1; z++) if (z < p->ExportCount)
+      CHECK(p->ExportEntries[z].Name >= p->Strings && p->ExportEntries[z].Name < p->Strings + sl, "export entry name lies inside the string table");
+    if (sl > 0) CHECK(p->Strings[sl - 1] == 0, "string table is NUL-terminated");
+    if (rc + ec > 0) WITNESS("accepted table with an entry");
+    DestroyRelocInfo(p);
+    WITNESS("accepted");
+  }
+  else WITNESS("rejected");
+  WITNESS("end");
+}
+#else
 void harness(void)
 {
   Byte Header = 0xEE, CPU = 0, Segment = 0, Gran = 1; int it;
@@ -61,3 +93,4 @@ void harness(void)
   }
   WITNESS("end");
 }
+#endif
